@@ -243,7 +243,25 @@ func (in *inliner) boolLocalDef(id *ast.Ident) ast.Expr {
 	var def ast.Expr
 	var defStmt ast.Stmt
 	n := 0
-	ast.Inspect(in.fi.Decl.Body, func(m ast.Node) bool {
+	// the function itself, or the (parameter-substituted) body of a helper being followed: a flag of
+	// an inlined helper is a local of that body
+	root := in.fi.Decl.Body
+	for _, b := range in.body {
+		if b == nil {
+			continue
+		}
+		owns := false
+		ast.Inspect(b, func(m ast.Node) bool {
+			if m == ast.Node(id) {
+				owns = true
+			}
+			return !owns
+		})
+		if owns {
+			root = b
+		}
+	}
+	ast.Inspect(root, func(m ast.Node) bool {
 		switch v := m.(type) {
 		case *ast.AssignStmt:
 			if len(v.Lhs) == len(v.Rhs) {
@@ -376,7 +394,7 @@ func (in *inliner) boolLocalDef(id *ast.Ident) ast.Expr {
 			}
 		}
 	}
-	walk(in.fi.Decl.Body.List)
+	walk(root.List)
 	if !safe && !in.asValue {
 		return nil
 	}
